@@ -307,7 +307,7 @@ def _check(args):
         kw["save_name"] = rng.choice(["name", "Label", "__p", "1x", "a b", "NAME"])
         expect_reject = True
     elif variant == "extra_col":
-        kw["extra_col"] = rng.choice(["what", "name", "type", "parameters", "Name"])
+        kw["extra_col"] = rng.choice(["what", "name", "type", "parameters", "Name", "label::en", "entity_id::x", "create_if::fr", "x::y"])
         expect_reject = True
     elif variant == "two_rows":
         kw["rows2"] = True
